@@ -111,7 +111,7 @@ INTRA_ORDERS = ('asc_station', 'desc_station', 'rot1')
 
 # envelope: a station must see the deck from at least this elevation above the deck plane, and
 # every sweep angle must be inside the station's field of view
-MIN_DECK_ELEVATION_DEG = 0.5
+MIN_DECK_ELEVATION_DEG = 3.0
 MAX_SWEEP_DEG = 60.0
 
 
@@ -352,14 +352,16 @@ def envelope_report(room, sensors):
 def _tier_sets(quick):
     if quick:
         return {
-            'ns': (2, 3, 4), 'nplace': 2, 'hps': ('r0', 'r1', 'mid'), 'aims': (0,),
-            'vis': VIS_LINKABLE, 'walks': ('w21', 'floor5'), 'ms': (3, 5, 10),
-            'ord_ms': (3, 5), 'ord_ns': (2, 3, 4), 'unl_ms': (3, 5), 'unl_hps': ('r0',),
+            'ns': (2, 3, 4), 'nplace': 3, 'hps': ('r0', 'r1', 'mid'), 'aims': (0,),
+            'vis': VIS_LINKABLE, 'walks': ('w21', 'floor5', 'w27'), 'ms': (3, 5, 10),
+            'ord_nm': ((2, 3), (3, 3), (3, 5), (4, 3), (4, 5)), 'unl_ms': (3, 5), 'unl_hps': ('r0',),
         }
     return {
         'ns': (2, 3, 4, 5, 6), 'nplace': 4, 'hps': HEIGHT_PATTERNS, 'aims': (0, 1),
         'vis': VIS_LINKABLE, 'walks': WALK_NAMES, 'ms': (3, 5, 10, 40),
-        'ord_ms': (3, 5, 10), 'ord_ns': (2, 3, 4, 5, 6), 'unl_ms': (3, 5, 10), 'unl_hps': ('r0', 'r2', 'mid'),
+        'ord_nm': ((2, 3), (2, 5), (2, 10), (3, 3), (3, 5), (3, 10), (4, 3), (4, 5), (4, 10),
+                   (5, 3), (5, 5), (6, 3), (6, 5)),
+        'unl_ms': (3, 5, 10), 'unl_hps': ('r0', 'r2', 'mid'),
     }
 
 
@@ -383,6 +385,8 @@ def lattice(quick):
                             if walk not in T['walks']:
                                 continue
                             for m in T['ms']:
+                                if m == 40 and not (ai == 0 and walk in ('w21', 'floor5', 'w37')):
+                                    continue        # 40-pose rooms: first aim set, three walks
                                 c = 13 * n + pi + 2 * hi + 3 * ai + 5 * vi + 7 * wi + 11 * (m % 7)
                                 specs.append({
                                     'fam': 'geo', 'n': n, 'place': pi, 'hp': hp, 'aim': ai, 'vis': vis,
@@ -392,20 +396,19 @@ def lattice(quick):
                                     'intra_order': INTRA_ORDERS[(c // 2) % 3]})
     # family 'ord': for one geometry per station count, the full product of ids x order x timing x
     # station order inside a sample x visibility
-    for n in T['ord_ns']:
-        for m in T['ord_ms']:
-            orders = [('rot', r) for r in range(m)] + [('rev',)]
-            if m <= 4:
-                orders = [('perm', list(p)) for p in itertools.permutations(range(m))]
-            for vis in ('complete', 'chain', 'mixed'):
-                for ids in IDSET_NAMES:
-                    for order in orders:
-                        for timing in TIMING_NAMES:
-                            for io in INTRA_ORDERS:
-                                specs.append({
-                                    'fam': 'ord', 'n': n, 'place': 0, 'hp': 'r1', 'aim': 0, 'vis': vis,
-                                    'walk': 'w27', 'm': m, 'yaw_off': 1, 'tilt_off': 1, 'ids': ids,
-                                    'order': list(order), 'timing': timing, 'intra_order': io})
+    for n, m in T['ord_nm']:
+        orders = [('rot', r) for r in range(m)] + [('rev',)]
+        if m <= 4:
+            orders = [('perm', list(p)) for p in itertools.permutations(range(m))]
+        for vis in ('complete', 'chain', 'mixed'):
+            for ids in IDSET_NAMES:
+                for order in orders:
+                    for timing in TIMING_NAMES:
+                        for io in INTRA_ORDERS:
+                            specs.append({
+                                'fam': 'ord', 'n': n, 'place': 0, 'hp': 'r1', 'aim': 0, 'vis': vis,
+                                'walk': 'w27', 'm': m, 'yaw_off': 1, 'tilt_off': 1, 'ids': ids,
+                                'order': list(order), 'timing': timing, 'intra_order': io})
     # family 'unl': systems that cannot be linked (must be rejected with an error).  Single-station
     # samples have to reach the estimator, so the matcher runs with its default min_nr_of_bs_in_match.
     for n in T['ns']:
@@ -423,7 +426,19 @@ def lattice(quick):
                                 'walk': 'w21', 'm': m, 'yaw_off': c % 5, 'tilt_off': c % 2, 'ids': ids,
                                 'order': ['rot', 0], 'timing': ('tight_wide', 'same_ts_wide')[c % 2],
                                 'intra_order': INTRA_ORDERS[c % 3]})
-    return specs
+    # keep only real rooms (a chain/star over n stations needs n-1 poses) and drop specifications
+    # that realise the same room (with two stations every linkable graph is the complete one)
+    rooms, seen = [], set()
+    for spec in specs:
+        vis = spec['vis']
+        visible = _visibility(tuple(vis) if isinstance(vis, list) else vis, spec['n'], spec['m'])
+        if visible is None:
+            continue
+        k = tuple((f, repr(spec[f])) for f in sorted(spec) if f != 'vis') + (tuple(visible),)
+        if k not in seen:
+            seen.add(k)
+            rooms.append(spec)
+    return rooms
 
 
 def _spec_key(spec):
@@ -465,7 +480,7 @@ def run_room(spec, p, verbose=False):
         return None
     through_filter = spec['fam'] != 'unl'
     vname = _vis_name(spec)
-    cls = '%s:n%d' % (vname, spec['n'])
+    cls = '%s:%s' % (vname, 'n2' if spec['n'] == 2 else 'n3plus')
     ok_env, min_elev, max_sweep = envelope_report(room, sensors)
     if not ok_env:
         # geometric exclusion rule (stated in ck.rule): the room is not part of the lattice
@@ -578,10 +593,23 @@ def run_room(spec, p, verbose=False):
     first_pose = room['poses'][next(iter(groups[0]['poses']))]
     used_stations = sorted({s for g in groups for s in g['members']})
     problems = []
-    if len(cleaned) != len(matched) or any(a is not b for a, b in zip(cleaned, matched)):
-        problems.append(('estimate:samples_dropped', 'estimator kept %d of %d error-free samples' % (
-            len(cleaned), len(matched))))
+    dropped = len(cleaned) != len(matched) or any(a is not b for a, b in zip(cleaned, matched))
+    if dropped:
+        problems.append(('estimate:samples_dropped', 'estimator discarded %d of %d error-free samples as '
+                         'outliers, their Crazyflie poses are not returned' % (len(matched) - len(cleaned),
+                                                                                len(matched))))
     exp_ids = sorted(ids[s] for s in used_stations)
+    # diagnostic only (goes into the signature, not into the verdict): was the estimator's initial
+    # guess already far off (wrong IPPE mirror) or did the solver move away from a good guess?
+    guess_err = 0.0
+    for s in used_stations:
+        gp = guess.bs_poses.get(ids[s])
+        if gp is None:
+            guess_err = float('inf')
+        else:
+            guess_err = max(guess_err, _pose_err(_rel(first_pose, room['stations'][s]), gp.rot_matrix,
+                                                 gp.translation)[0])
+    guess_state = 'guess_far_off' if guess_err > 0.05 else 'guess_close'
     worst_bs = (0.0, 0.0)
     worst_cf = (0.0, 0.0)
     if sorted(sol.bs_poses) != exp_ids:
@@ -594,7 +622,9 @@ def run_room(spec, p, verbose=False):
             worst_bs = (max(worst_bs[0], e[0]), max(worst_bs[1], e[1]))
         if not (worst_bs[0] <= TOL_POS and worst_bs[1] <= TOL_ANG):
             problems.append(('solve:bs_pose_error', 'worst base-station error %.3g m / %.3g rad' % worst_bs))
-    if len(sol.cf_poses) != len(groups):
+    if dropped:
+        pass
+    elif len(sol.cf_poses) != len(groups):
         problems.append(('solve:cf_pose_count', '%d Crazyflie poses returned for %d samples' % (
             len(sol.cf_poses), len(groups))))
     else:
@@ -609,15 +639,19 @@ def run_room(spec, p, verbose=False):
     wp = max(worst_bs[0], worst_cf[0])
     wa = max(worst_bs[1], worst_cf[1])
     res.update({'worst_pos_err_m': wp, 'worst_ang_err_rad': wa, 'success': bool(sol.success),
+                'initial_guess_worst_bs_pos_err_m': guess_err,
                 'verdict': 'ok' if not problems else '; '.join(t for _, t in problems)})
     decade = lambda x: -99 if x <= 0 else int(math.floor(math.log10(x)))  # noqa: E731
     p.case(key=key, outcome=(cls, bool(sol.success), decade(wp), decade(wa), tuple(s for s, _ in problems)))
     p.add('linkable_rooms_solved', 1)
     p.add('pos_err_decade_1e%d' % decade(wp), 1)
     p.add('ang_err_decade_1e%d' % decade(wa), 1)
-    for sig, text in problems:
-        p.violation('%s:%s' % (sig, cls), '%s; ids %r, %d samples, min deck elevation %.1f deg; room %r' % (
-            text, ids, len(groups), min_elev, spec), spec)
+    if problems:
+        # one violation per room: the first failing clause names it, the others are in the text
+        p.violation('%s:%s:%s' % (problems[0][0], guess_state, cls),
+                    '%s; initial guess was %.3g m off; %d stations, ids %r, %d samples, min deck elevation %.1f deg; '
+                    'room %r' % ('; '.join(t for _, t in problems), guess_err, spec['n'], ids, len(groups),
+                                 min_elev, spec), spec)
     if verbose:
         res['bs'] = {ids[s]: (sol.bs_poses[ids[s]].translation.tolist() if ids[s] in sol.bs_poses else None,
                               _rel(first_pose, room['stations'][s])[1].tolist()) for s in used_stations}
@@ -629,18 +663,19 @@ def _chunk(job):
     p = Partial()
     wp = wa = 0.0
     min_elev, max_sweep = 90.0, 0.0
-    shown = 0
-    for spec in specs:
+    for spec, want_sample in specs:
         r = run_room(spec, p)
         if r is None:
             continue
         min_elev = min(min_elev, r['min_deck_elevation_deg'])
         max_sweep = max(max_sweep, r['max_sweep_deg'])
-        if 'worst_pos_err_m' in r:
+        if r.get('verdict') == 'ok':
+            # extrema over the rooms that satisfy the oracle (the margin to the tolerance)
             wp = max(wp, r['worst_pos_err_m'])
             wa = max(wa, r['worst_ang_err_rad'])
-        if shown < 1 and ci % 7 == 0:
-            shown += 1
+        elif 'worst_pos_err_m' in r:
+            p.add('linkable_rooms_violating', 1)
+        if want_sample:
             s = r['spec']
             p.sample({'family': s['fam'], 'stations': s['n'], 'ids': list(_ids_for(s['ids'], s['n'])),
                       'visibility': _vis_name(s), 'poses': s['m'], 'walk': s['walk'], 'heights': s['hp'],
@@ -657,14 +692,12 @@ def _chunk(job):
 
 
 def run(ck):
-    specs = lattice(ck.quick)
-    seen = set()
-    uniq = []
-    for s in specs:
-        k = _spec_key(s)
-        if k not in seen:
-            seen.add(k)
-            uniq.append(s)
+    uniq = lattice(ck.quick)
+    if not ck.quick:
+        have = {_spec_key(s) for s in uniq}
+        missing = [s for s in lattice(True) if _spec_key(s) not in have]
+        if missing:
+            raise RuntimeError('harness: thorough lattice does not contain quick room %r' % (missing[0],))
     ck.rule = (
         'every room of a stated finite lattice (no sampling): family geo = full product of stations n x '
         'mounting-spot tuples x height patterns over {1.5, 2.5, 4 m} x aim-offset sets (generic yaw/pitch/roll '
@@ -690,9 +723,15 @@ def run(ck):
               'systems use the default min_nr_of_bs_in_match so that single-station samples reach the estimator')
     ck.assume('exactly 20 ms between two stamps is never generated: the property does not say which side the '
               'window boundary belongs to')
+    # evidence samples: four rooms of each family, evenly spaced through the family
+    want = set()
+    for fam in ('geo', 'ord', 'unl'):
+        idx = [i for i, s in enumerate(uniq) if s['fam'] == fam]
+        want.update(idx[(len(idx) * j) // 4] for j in range(4) if idx)
+    tagged = [(s, i in want) for i, s in enumerate(uniq)]
     nchunks = max(1, min(len(uniq), 16 * 12))
     # heavy rooms (40 poses) are spread evenly: round-robin assignment
-    jobs = [(ci, uniq[ci::nchunks]) for ci in range(nchunks)]
+    jobs = [(ci, tagged[ci::nchunks]) for ci in range(nchunks)]
     ck.pmap(_chunk, jobs)
     ext = {}
     for name in list(ck.extra):
@@ -700,16 +739,17 @@ def run(ck):
             ext.setdefault(name.split('@')[0], []).append(ck.extra.pop(name))
     wp, wa = max(ext['_max_pos']), max(ext['_max_ang'])
     ck.note('rooms_in_lattice', len(uniq))
-    ck.note('worst_position_error_m', wp)
-    ck.note('worst_angle_error_rad', wa)
+    ck.note('worst_position_error_m_over_passing_rooms', wp)
+    ck.note('worst_angle_error_rad_over_passing_rooms', wa)
     ck.note('tolerance_margin_position', (TOL_POS / wp) if wp else None)
     ck.note('tolerance_margin_angle', (TOL_ANG / wa) if wa else None)
     ck.note('min_deck_elevation_deg_in_lattice', min(ext['_min_elev']))
     ck.note('max_sweep_angle_deg_in_lattice', max(ext['_max_sweep']))
     ck.exhaustive = True
-    print('C09 rooms=%d worst position error %.3g m (tolerance %.0e, margin x%.0f), worst angle error %.3g rad '
-          '(margin x%.0f), min deck elevation %.1f deg, max sweep %.1f deg' % (
-              len(uniq), wp, TOL_POS, TOL_POS / wp if wp else 0, wa, TOL_ANG / wa if wa else 0,
+    print('C09 rooms=%d (violating linkable rooms: %d); over the passing rooms: worst position error %.3g m '
+          '(tolerance %.0e, margin x%.0f), worst angle error %.3g rad (margin x%.0f); min deck elevation %.1f deg, '
+          'max sweep %.1f deg' % (
+              len(uniq), ck.extra.get('linkable_rooms_violating', 0), wp, TOL_POS, TOL_POS / wp if wp else 0, wa, TOL_ANG / wa if wa else 0,
               min(ext['_min_elev']), max(ext['_max_sweep'])))
 
 
@@ -719,8 +759,8 @@ def replay(ck, data):
         print('spec is not a room of the lattice (graph needs more poses, or outside the envelope):', data)
         return
     print('room:', data)
-    for k in ('groups', 'min_deck_elevation_deg', 'max_sweep_deg', 'worst_pos_err_m', 'worst_ang_err_rad',
-              'success', 'verdict'):
+    for k in ('groups', 'min_deck_elevation_deg', 'max_sweep_deg', 'initial_guess_worst_bs_pos_err_m',
+              'worst_pos_err_m', 'worst_ang_err_rad', 'success', 'verdict'):
         if k in r:
             print('  %s: %r' % (k, r[k]))
     for bs_id, (got, exp) in sorted(r.get('bs', {}).items()):
